@@ -95,6 +95,7 @@ type simCase struct {
 	Sig     bool    `json:"sig"`
 	Signers []int   `json:"signers"` // participant ids
 	Differ  bool    `json:"differ"`
+	Replay  bool    `json:"replay"` // the forged decision re-uses signers and aggregate bytes of an honest decision of the same instance (reported after it)
 }
 
 var ptCid = gpbft.MakeCid([]byte("verif-c19-pt"))
@@ -140,6 +141,12 @@ type forger struct {
 }
 
 func (f *forger) StartInstanceAt(instance uint64, _ time.Time) error {
+	if f.c.Replay {
+		if instance == f.c.At+1 {
+			f.inject(f.c.At) // the honest participants have reported their decisions of instance At by now
+		}
+		return nil
+	}
 	if f.c.At == instance {
 		f.inject(instance)
 	}
@@ -147,7 +154,11 @@ func (f *forger) StartInstanceAt(instance uint64, _ time.Time) error {
 }
 
 func (f *forger) ValidateMessage(_ context.Context, msg *gpbft.GMessage) (gpbft.ValidatedMessage, error) {
-	if !f.injected && msg.Vote.Instance >= f.c.At {
+	if f.c.Replay {
+		if !f.injected && msg.Vote.Instance > f.c.At {
+			f.inject(f.c.At) // somebody works on the next instance already: decisions of instance At have been reported
+		}
+	} else if !f.injected && msg.Vote.Instance >= f.c.At {
 		f.inject(f.c.At)
 	}
 	return adversary.Validated(msg), nil
@@ -188,6 +199,24 @@ func (f *forger) inject(tgt uint64) {
 		voteInst = tgt - 1
 	}
 	pl := gpbft.Payload{Instance: voteInst, Round: f.c.Round, Phase: phaseOf(f.c.Phase), SupplementalData: *inst.SupplementalData, Value: value}
+	if f.c.Replay {
+		honest := inst.VerifDecisionOf(0)
+		if honest == nil {
+			f.injErr = fmt.Errorf("participant 0 has not reported a decision for instance %d", tgt)
+			return
+		}
+		f.c.Signers = nil
+		_ = honest.Signers.ForEach(func(i uint64) error {
+			f.sidx = append(f.sidx, int(i))
+			f.c.Signers = append(f.c.Signers, int(comt.PowerTable.Entries[i].ID))
+			return nil
+		})
+		for _, e := range comt.PowerTable.Entries {
+			f.powers = append(f.powers, e.Power.Int64())
+		}
+		_, f.injErr = f.host.ReceiveDecision(ctx, &gpbft.Justification{Vote: pl, Signers: honest.Signers, Signature: honest.Signature})
+		return
+	}
 	msg := pl.MarshalForSigning(f.host.NetworkName())
 	for _, id := range f.c.Signers {
 		idx, ok := comt.PowerTable.Lookup[gpbft.ActorID(id)]
@@ -249,7 +278,11 @@ func runForged(t *testing.T, r *rec, c *simCase) {
 	if err != nil {
 		t.Fatal(err)
 	}
-	runErr := sm.Run(c.At+1, 10)
+	n2 := c.At + 1
+	if c.Replay {
+		n2 = c.At + 2
+	}
+	runErr := sm.Run(n2, 10)
 	if fg.injErr != nil {
 		t.Fatalf("case %+v: could not inject: %v", c, fg.injErr)
 	}
